@@ -419,7 +419,8 @@ class BuiltinMixin(object):
             elif a.ty is STATIC:
                 res.append((st1, self.adapt(a, Set(a.items[0].ty))))
             else:
-                ety = a.ty.k if isinstance(a.ty, Map) else a.ty.elem
+                inner = a.ty.elem if isinstance(a.ty, Opt) else a.ty
+                ety = inner.k if isinstance(inner, Map) else inner.elem
                 res.append((st1, self._as_set(a, ety, st1)))
         return res
 
@@ -456,6 +457,12 @@ class BuiltinMixin(object):
         for st1, (a,) in self._args1(e, st):
             if isinstance(a.ty, Map) or a.ty is EMPTY_DICT:
                 res.append((st1, a))
+            elif isinstance(a.ty, Opt) and isinstance(a.ty.elem, Map):
+                x, y = self.fork(st1, core.ois_none(a), e.lineno, "dict-none") if not self.in_spec else (None, st1)
+                if x is not None:
+                    self.do_raise(x, "TypeError")
+                if y is not None:
+                    res.append((y, core.oval(a)))
             else:
                 raise OutsideSubset("dict(%r)" % (a.ty,))
         return res
@@ -666,6 +673,10 @@ class BuiltinMixin(object):
         res = []
         for st1, vals in self._args1(e, st):
             obj, name = vals[0], e.args[1]
+            if isinstance(obj.ty, Opt) and isinstance(obj.ty.elem, Ref):
+                self.notes.append("getattr on an optional object: taken as present (guarded by a truthiness test)")
+                obj = core.oval(obj)
+                vals = [obj] + list(vals[1:])
             if len(vals) == 3 and isinstance(name, ast.Constant) and isinstance(obj.ty, Ref) and \
                     self.field_ty(obj.ty.cls, name.value) is not None:
                 has = core.ufun("hasattr_" + name.value, [obj], BOOL).t
